@@ -643,6 +643,23 @@ theorem explicit_sigma_kept (s : Sys ℝ) (p : Prism ℝ) (d : Dom ℝ) (hd : s.
   · intro v hv; rw [g1, hv]
   · intro hn; rw [g1, hn]
 
+/-- **a non-additive contact distance written into the sigma table is what the PRISM object uses**: after
+`sys.diameter.sigma[i,j] = v` the closure of that pair gets `v` as its core edge, a potential without its own σ is evaluated with
+`v`, and every other pair keeps the value it had -/
+theorem sigma_table_override_used (s : Sys ℝ) (p : Prism ℝ) (d : Dom ℝ) (i j : ℕ) (hij : i ≤ j) (v : ℝ)
+    (hd : s.dom = some d) (h : ({ s with diam := s.diam.setSigma i j v } : Sys ℝ).createPRISM = .ok p) :
+    p.cloSigma i j = v ∧
+    (∀ P, s.pot i j = some P → P.sigma = none → p.potSigma i j = v) ∧
+    (∀ a b, a ≤ b → ¬ ((a = i ∧ b = j) ∨ (a = j ∧ b = i)) → p.cloSigma a b = (s.diam.sigma a b).getD 0) := by
+  obtain ⟨_, _, hf⟩ := createPRISM_fields _ p d (by exact hd) h
+  refine ⟨?_, ?_, ?_⟩
+  · rw [(hf i j hij).1]; simp [Diam.setSigma, setSym]
+  · intro P hP hn
+    obtain ⟨g1, _⟩ := (hf i j hij).2.2 P hP
+    rw [g1, hn]; simp [Diam.setSigma, setSym]
+  · intro a b hab hne
+    rw [(hf a b hab).1]; simp [Diam.setSigma, setSym, hne]
+
 /-- **`createPRISM` leaves, for every pair, private potential / closure objects that agree with the value-level state it
 returns** (the object-level and the value-level descriptions of the same constructor coincide) -/
 theorem create_cells_agree (w : World ℝ) (hw : WInv w) (core : Prism ℝ) (d : Dom ℝ)
